@@ -412,6 +412,29 @@ def body_C03(ctx):
                                 "the branch's own history), and value + per-thread events must equal the reference semantics")
 
 
+def body_C08(ctx):
+    import k2
+    n = 120 if ctx.quick() else 1200
+    spawn = ["a0t0s1", "a0t1s1"]
+    progs = scaffold_batch(ctx, spawn, n, max_depth=4, max_branches=5, fail_rate=(1, 10), handler_rate=(1, 4))
+    # liveness: all n sibling threads alive at once (a serialised expansion deadlocks at the gate -> watchdog)
+    ids = k2.Ids()
+    gated = []
+    profs = [(1, 1), (2, 2), (1, 3, 3), (2, 1, 3), (3, 3, 3), (1, 2, 1, 2), (2, 2, 1, 3, 2)]
+    if not ctx.quick():
+        profs += [pr for nb in (2, 3) for pr in __import__("itertools").product((1, 2, 3), repeat=nb)]
+    for i, prof in enumerate(profs):
+        for kind in spawn:
+            p = k2.gen_scaffold(ctx.rng, "g%d_%s" % (i, kind), kind, profile=prof, fail_rate=(0, 1), panic_rate=(0, 1), handler_rate=(0, 1))
+            gated.append(k2.add_gates(p, ids))
+    run_k2(ctx, progs + gated)
+    k2.run_nested_names(ctx)
+    ctx.out.coverage["rule"] = ("thread-spawning macros: random programs (thread name and id of every callback, one distinct thread per "
+                                "(branch, step), callbacks of a step with one active branch on the caller); gated programs where every "
+                                "chain of a multi-branch step waits at a Barrier(n) for all its siblings (deadlock -> 20 s watchdog -> "
+                                "violation); nested spawn macros to depth 3 with expected names <caller>_join_<branch>")
+
+
 def body_C04(ctx):
     import itertools
     import k2
@@ -569,6 +592,7 @@ PROPS = {
     "C03": ("JoinModel.Props.C03", body_C03),
     "C04": ("JoinModel.Props.C04", body_C04),
     "C06": ("JoinModel.Props.C06", body_C06),
+    "C08": ("JoinModel.Props.C08", body_C08),
     "C11": ("JoinModel.Props.C11", body_C11),
     "C12": ("JoinModel.Props.C12", body_C12),
     "C13": ("JoinModel.Props.C13", body_C13),
